@@ -4,6 +4,7 @@
 mod common;
 mod consts;
 mod consts_more;
+mod c03;
 mod c04;
 mod c17;
 mod c18;
@@ -58,6 +59,7 @@ fn main() {
             }
             let mut ctx = Ctx { seed, thorough, out: Out::new(&out), rng: Rng::new(seed), corpus };
             match prop.as_str() {
+                "C03" => c03::run(&mut ctx),
                 "C04" => c04::run(&mut ctx),
                 "C17" => c17::run(&mut ctx),
                 "C18" => c18::run(&mut ctx),
